@@ -58,9 +58,16 @@ def lookup(eng, mp, k, fr):
     return eng.choose(opts)
 
 
+def _is_set_name(name):
+    """is the container named at the head of this callee a set? (generic arguments may mention sets too)"""
+    head = name.lstrip('<')
+    head = re.split(r'<|::<| as ', head, 1)[0]
+    return head.split('::')[-1].endswith('Set')
+
+
 @model(r'^' + MAP + r'::<.*>::new$|^<' + MAP + r'<.*> as Default>::default$')
 def _map_new(eng, m, args, fr, dty):
-    return MapV(is_set='Set' in m.group(0))
+    return MapV(is_set=_is_set_name(m.group(0)))
 
 
 @model(r'^' + MAP + r'::<.*>::(get|get_mut|contains_key|contains)::<.*>$')
@@ -118,3 +125,216 @@ def _map_len(eng, m, args, fr, dty):
 def _map_clone(eng, m, args, fr, dty):
     mp = the_map(eng, args[0], fr)
     return MapV([(deep_copy(k), Cell(deep_copy(c.v))) for k, c in mp.entries], mp.is_set)
+
+
+@model(r'^<' + MAP + r'<.*> as From<\[.*; \d+\]>>::from$')
+def _map_from_array(eng, m, args, fr, dty):
+    arr = eng.deref(args[0], fr)
+    is_set = _is_set_name(m.group(0))
+    mp = MapV(is_set=is_set)
+    for it in arr.items:
+        if is_set:
+            if lookup(eng, mp, it, fr) is None:
+                mp.entries.append((it, Cell(UNIT)))
+        else:
+            k, v = it.fields
+            i = lookup(eng, mp, k, fr)
+            if i is None:
+                mp.entries.append((k, Cell(v)))
+            else:
+                mp.entries[i] = (mp.entries[i][0], Cell(v))
+    return mp
+
+
+# ---------------------------------------------------------------- iteration
+# A HashMap iterates in an order that depends on the process's hash seeds.  The model iterates in insertion order
+# unless the harness installs eng.env['map_order'](eng, mp) -> list of entry indices (a permutation), which is how a
+# harness quantifies over iteration orders.  BTreeMap/BTreeSet iterate in key order: concrete byte-string / integer keys
+# are sorted, anything else is unsupported.
+def _is_btree(name):
+    return 'BTree' in name.split(' as ')[0].split('::<')[0]
+
+
+def _key_sort_val(eng, k, fr):
+    k = eng.deref(k, fr)
+    if isinstance(k, Int):
+        c = concrete(k.e) if k.c is None else k.c
+        if c is None:
+            raise Unsupported('BTreeMap iteration with symbolic integer key')
+        return (c,)
+    if isinstance(k, (Vec, Slice)):
+        out = []
+        for b in items_of(eng, k, fr):
+            if hasattr(b, 'conc'):
+                c = b.conc()
+            else:
+                c = b.c if b.c is not None else concrete(b.e)
+            if c is None:
+                raise Unsupported('BTreeMap iteration with symbolic key bytes')
+            out.append(c)
+        return tuple(out)
+    raise Unsupported('BTreeMap iteration over keys %r' % (k,))
+
+
+def ordered(eng, mp, name, fr):
+    idx = list(range(len(mp.entries)))
+    if _is_btree(name):
+        idx.sort(key=lambda i: _key_sort_val(eng, mp.entries[i][0], fr))
+        return idx
+    hook = eng.env.get('map_order')
+    if hook is not None:
+        return hook(eng, mp)
+    return idx
+
+
+@model(r'^' + MAP + r'::<.*>::(iter|iter_mut|keys|values|values_mut|into_keys|into_values|drain)$|^<&(mut )?' + MAP + r'<.*> as IntoIterator>::into_iter$|^<' + MAP + r'<.*> as IntoIterator>::into_iter$')
+def _map_iter(eng, m, args, fr, dty):
+    from .models_vec import IterV
+    mp = the_map(eng, args[0], fr)
+    name = m.group(0)
+    op = m.group(1)
+    if op is None:
+        op = 'iter' if name.startswith('<&') else 'into_iter'
+    out = []
+    for i in ordered(eng, mp, name, fr):
+        k, c = mp.entries[i]
+        if mp.is_set:
+            out.append(Cell(k) if op in ('into_iter', 'drain') else Cell(Ref(Cell(k))))
+        elif op in ('iter', 'iter_mut'):
+            out.append(Cell(Tup(Ref(Cell(k)), Ref(c))))
+        elif op == 'keys':
+            out.append(Cell(Ref(Cell(k))))
+        elif op in ('values', 'values_mut'):
+            out.append(Cell(Ref(c)))
+        elif op == 'into_keys':
+            out.append(Cell(k))
+        elif op == 'into_values':
+            out.append(Cell(c.v))
+        else:
+            out.append(Cell(Tup(k, c.v)))
+    if op == 'drain':
+        mp.entries = []
+    return IterV(out, owned=True)
+
+
+@model(r'^' + MAP + r'::<.*>::(difference|intersection|union|is_subset|is_disjoint)(::<.*>)?$')
+def _set_ops(eng, m, args, fr, dty):
+    from .models_vec import IterV
+    a = the_map(eng, args[0], fr)
+    b = the_map(eng, args[1], fr)
+    op = m.group(1)
+    name = m.group(0)
+    out = []
+    if op in ('difference', 'intersection', 'is_subset', 'is_disjoint'):
+        want_in = op in ('intersection',)
+        for i in ordered(eng, a, name, fr):
+            k = a.entries[i][0]
+            inb = lookup(eng, b, k, fr) is not None
+            if op == 'is_subset':
+                if not inb:
+                    return mkbool(False)
+            elif op == 'is_disjoint':
+                if inb:
+                    return mkbool(False)
+            elif inb == want_in:
+                out.append(Cell(Ref(Cell(k))))
+        if op in ('is_subset', 'is_disjoint'):
+            return mkbool(True)
+        return IterV(out, owned=True)
+    for i in ordered(eng, a, name, fr):
+        out.append(Cell(Ref(Cell(a.entries[i][0]))))
+    for i in ordered(eng, b, name, fr):
+        k = b.entries[i][0]
+        if lookup(eng, a, k, fr) is None:
+            out.append(Cell(Ref(Cell(k))))
+    return IterV(out, owned=True)
+
+
+@model(r'^<' + MAP + r'<.*> as Extend<.*>>::extend::<.*>$')
+def _map_extend(eng, m, args, fr, dty):
+    from .models_vec import IterV, drain
+    mp = the_map(eng, args[0], fr)
+    src = args[1]
+    if isinstance(src, MapV):
+        items = [(k, c.v) for k, c in src.entries]
+    else:
+        if not isinstance(src, IterV):
+            src = eng.deref(src, fr)
+        if isinstance(src, Vec):
+            vals = list(src.items)
+        elif isinstance(src, IterV):
+            vals = drain(eng, src, fr)
+        else:
+            raise Unsupported('extend from %r' % (src,))
+        items = []
+        for v in vals:
+            if mp.is_set:
+                items.append((eng.deref(v, fr) if isinstance(v, Ref) else v, UNIT))
+            else:
+                v = eng.deref(v, fr) if isinstance(v, Ref) else v
+                k, val = v.fields
+                items.append((k, val))
+    for k, v in items:
+        i = lookup(eng, mp, k, fr)
+        if i is None:
+            mp.entries.append((k, Cell(v)))
+        elif not mp.is_set:
+            mp.entries[i] = (mp.entries[i][0], Cell(v))
+    return UNIT
+
+
+# ---------------------------------------------------------------- Entry API
+class EntryV:
+    def __init__(self, mp, key, idx):
+        self.mp, self.key, self.idx = mp, key, idx
+
+
+@model(r'^' + MAP + r'::<.*>::entry$')
+def _map_entry(eng, m, args, fr, dty):
+    mp = the_map(eng, args[0], fr)
+    return EntryV(mp, args[1], lookup(eng, mp, args[1], fr))
+
+
+@model(r'^(?:std::collections::(?:hash_map|btree_map)::)?Entry::<.*>::(or_insert|or_insert_with|or_default|or_insert_with_key)(::<.*>)?$')
+def _entry_or_insert(eng, m, args, fr, dty):
+    e = args[0]
+    op = m.group(1)
+    if e.idx is None:
+        if op == 'or_insert':
+            v = args[1]
+        elif op == 'or_insert_with':
+            v = eng.call_value(args[1], [], fr)
+        elif op == 'or_insert_with_key':
+            v = eng.call_value(args[1], [Ref(Cell(e.key))], fr)
+        else:
+            vt = m.group(0)
+            raise Unsupported('Entry::or_default needs the value type: ' + vt)
+        e.mp.entries.append((e.key, Cell(v)))
+        e.idx = len(e.mp.entries) - 1
+    return Ref(e.mp.entries[e.idx][1])
+
+
+@model(r'^(?:std::collections::(?:hash_map|btree_map)::)?Entry::<.*>::and_modify::<.*>$')
+def _entry_and_modify(eng, m, args, fr, dty):
+    e = args[0]
+    if e.idx is not None:
+        eng.call_value(args[1], [Ref(e.mp.entries[e.idx][1])], fr)
+    return e
+
+
+@model(r'^' + MAP + r'::<.*>::clear$')
+def _map_clear(eng, m, args, fr, dty):
+    the_map(eng, args[0], fr).entries = []
+    return UNIT
+
+
+@model(r'^' + MAP + r'::<.*>::(with_capacity|with_hasher|with_capacity_and_hasher)$')
+def _map_with_capacity(eng, m, args, fr, dty):
+    return MapV(is_set=_is_set_name(m.group(0)))
+
+
+@model(r'^<' + MAP + r'<.*> as FromIterator<.*>>::from_iter::<.*>$')
+def _map_from_iter(eng, m, args, fr, dty):
+    mp = MapV(is_set=_is_set_name(m.group(0)))
+    _map_extend(eng, m, [Ref(Cell(mp)), args[0]], fr, dty)
+    return mp
